@@ -45,13 +45,13 @@ def engageBytes (c : RenderCfg) (m : ModeReq) (altscreen : Bool) : Bytes :=
   (if !m.title.isEmpty ∧ !c.d.setTitle.isEmpty then tp c (parm c.d.setTitle [TParm.Value.str m.title]) else [])
 
 /-- bytes written by disengage after the loops have stopped (tscreen.go:2074-2094) -/
-def disengageBytes (c : RenderCfg) (cursorStyle cursorColor : Nat) (altscreen : Bool) : Bytes :=
+def disengageBytes (c : RenderCfg) (cursorShaped cursorTinted : Bool) (altscreen : Bool) : Bytes :=
   let ti := c.ti
   tp c ti.showCursor ++
   (match c.d.cursorStyles with
-   | some l => if cursorStyle ≠ 0 then tp c (l.headD []) else []
+   | some l => if cursorShaped then tp c (l.headD []) else []
    | none => []) ++
-  (if !c.d.cursorFg.isEmpty ∧ Color.valid cursorColor then tp c c.d.cursorFg else []) ++
+  (if !c.d.cursorFg.isEmpty ∧ cursorTinted then tp c c.d.cursorFg else []) ++
   tp c ti.resetFgBg ++ tp c ti.attrOff ++ tp c ti.exitKeypad ++ tp c ti.enableAutoMargin ++
   (if altscreen then (if !c.d.restoreTitle.isEmpty then tp c c.d.restoreTitle else []) ++ tp c ti.clear ++ tp c ti.exitCA else []) ++
   enableMouse c 0 ++ enablePasting c false ++ disableFocusReporting c
